@@ -4,13 +4,14 @@
 # (exit 1), and the patch is undone straight afterwards (git checkout).  Nothing else may use /repo meanwhile.
 set -u
 export VERIF_NO_EVIDENCE=1   # runs against a patched /repo say nothing about the unchanged tree
-cd /verif
+cd ${VERIF_SNAP:-/verif}
+mkdir -p .work
 IDS=${@:-$(ls seeded)}
 [ -z "$(git -C /repo status --short)" ] || { echo "/repo is not clean"; exit 2; }
 MISS=0
 for id in $IDS; do
   P=${id%%-*}
-  git -C /repo apply /verif/seeded/$id/patch.diff || { echo "$id: patch does not apply"; MISS=1; continue; }
+  git -C /repo apply ${VERIF_SNAP:-/verif}/seeded/$id/patch.diff || { echo "$id: patch does not apply"; MISS=1; continue; }
   timeout 3600 ./check $P --tier quick > .work/seedsweep.$id.log 2>&1; E=$?
   git -C /repo checkout -- .
   V=$(grep -c '^VIOLATION' .work/seedsweep.$id.log)
